@@ -35,7 +35,7 @@ import (
 // behaviour). Rounds happen when the fake clock passes the uploader's ticker.
 
 type c37Op struct {
-	Kind string `json:"k"` // w | noop | round | restart | snap | run
+	Kind string `json:"k"` // w | noop | round | restart | snap | run | gate
 	Ms   int    `json:"ms,omitempty"`
 	Del  int    `json:"del,omitempty"`
 	// round
@@ -47,6 +47,11 @@ type c37Op struct {
 	WUpload bool   `json:"w_upload,omitempty"` // a write while the storage Upload is in progress
 	// noop
 	Failing bool `json:"failing,omitempty"` // noop: a statement that fails (else one that matches no row)
+	// gate: a user backup (binary, not vacuumed) to a slow client holds the
+	// snapshot gate while an upload round starts
+	Pre   int `json:"pre,omitempty"`    // writes just before the user backup starts
+	Mid   int `json:"mid,omitempty"`    // writes while it holds the gate, before the round
+	RelMs int `json:"rel_ms,omitempty"` // the slow client finishes this long after the round started
 }
 
 type c37Scenario struct {
@@ -113,8 +118,18 @@ func c37Gen(r *core.Rand, tier string) any {
 			if restarts {
 				sc.Ops = append(sc.Ops, c37Op{Kind: "restart"})
 			}
-		case x < 92:
+		case x < 90:
 			sc.Ops = append(sc.Ops, c37Op{Kind: "snap"})
+		case x < 95:
+			if rounds >= 30 {
+				continue
+			}
+			rounds++
+			op := c37Op{Kind: "gate", Pre: r.Intn(3), Mid: r.Range(1, 3), RelMs: r.Range(100, 8000)}
+			if r.Bool(0.25) {
+				op.RelMs = r.Range(10500, 14000) // beyond the gate timeout of Store.Backup
+			}
+			sc.Ops = append(sc.Ops, op)
 		default:
 			sc.Ops = append(sc.Ops, c37Op{Kind: "run", Ms: r.Range(100, sc.IntervalS*700)})
 		}
@@ -409,6 +424,62 @@ func (h *c37H) runFor(d time.Duration) {
 	h.serveParks()
 }
 
+// gate runs one upload round while a user backup (binary, not vacuumed, to a
+// client that stops reading) holds the store's snapshot gate: writes before
+// the user backup, the user backup parks after its first chunk (it has taken
+// its own checkpoint and owns the gate), writes while it is parked, the clock
+// is advanced until the uploader starts a round, and the slow client finishes
+// RelMs later.
+func (h *c37H) gate(op c37Op, interval time.Duration) {
+	n, s, c := h.n, h.s, h.c
+	if !n.Up {
+		return
+	}
+	for i := 0; i < op.Pre; i++ {
+		h.write(0, " (pre-gate)")
+	}
+	pw := newC21ParkWriter([]int{0})
+	var berr error
+	t := s.Go("user-backup binary (slow client)", func() {
+		berr = n.Store.Backup(context.Background(), c21Request(c21Op{Format: "binary", NoLeader: true}), pw)
+	})
+	defer func() {
+		// never leave the slow client parked
+		for i := 0; i < 2000 && !t.Finished && !s.Capped; i++ {
+			pw.release()
+			s.Step()
+		}
+	}()
+	s.RunUntil(func() bool { return pw.parked || t.Finished }, 30*time.Second)
+	if !pw.parked {
+		c.Probe("gate_holder_did_not_park")
+		return
+	}
+	c.Probe("gate_held")
+	for i := 0; i < op.Mid; i++ {
+		h.write(0, " (gate held)")
+	}
+	// advance until the uploader starts a round (at most one interval and a bit)
+	h.plan = c37Plan{}
+	before := h.nRounds
+	deadline := time.Now().Add(interval + time.Second)
+	for !s.Capped && h.nRounds == before && time.Now().Before(deadline) {
+		h.serveParks()
+		s.Step()
+	}
+	if h.nRounds > before {
+		c.Probe("round_started_while_gate_held")
+	}
+	h.runFor(time.Duration(op.RelMs) * time.Millisecond)
+	pw.release()
+	s.Await(t, 30*time.Second)
+	if t.Finished && berr == nil {
+		c.Probe("gate_holder_backup_ok")
+	}
+	// let the round (and the retries of Provider.Provide) finish
+	h.runFor(interval)
+}
+
 func (h *c37H) serveParks() {
 	if h.parkedAt == "" {
 		return
@@ -660,6 +731,8 @@ func c37Run(c *core.Ctx, raw json.RawMessage) {
 			}
 		case "run":
 			h.runFor(time.Duration(op.Ms) * time.Millisecond)
+		case "gate":
+			h.gate(op, interval)
 		}
 	}
 	if c.Failed() {
